@@ -243,7 +243,7 @@ Proof.
   - destruct m as [[ty0 [t id]] v0].
     split_step Hs; inv_pair Hs; simpl in Hin; intuition discriminate.
   - left. split_step Hs; inv_pair Hs; simpl in Hin; try contradiction.
-    destruct Hin as [Hin|[]]. inv_pair Hin. auto.
+    destruct Hin as [Hin|[]]. inv_pair Hin. repeat split; reflexivity.
   - split_step Hs; inv_pair Hs; simpl in Hin; contradiction.
   - split_step Hs; inv_pair Hs; simpl in Hin; contradiction.
   - right. split; [reflexivity|].
@@ -281,31 +281,33 @@ Inductive phase_move (c : cfg) (st : state) (ev : event) (st' : state) (o : list
 | PM_fail : (ph st = Collect \/ exists L n, ph st = Query L n) -> (ev = Pass2 \/ ev = CtxDone) ->
     ph st' = Failed -> conts o = [] -> errs o = [tt] -> phase_move c st ev st' o.
 
+Ltac pm_same := apply PM_same; [simpl; congruence|reflexivity|reflexivity].
+
 Lemma step_phase c st ev st' o : step c st ev = (st', o) -> phase_move c st ev st' o.
 Proof.
   intros Hs. destruct ev; unfold step, decide, set_ph in Hs.
   - destruct m as [[ty0 [t id]] v0].
-    split_step Hs; inv_pair Hs; apply PM_same; reflexivity.
-  - split_step Hs; inv_pair Hs; apply PM_same; reflexivity.
-  - split_step Hs; inv_pair Hs; apply PM_same; reflexivity.
-  - split_step Hs; inv_pair Hs; apply PM_same; reflexivity.
-  - destruct (ph st) eqn:Ep; try (inv_pair Hs; apply PM_same; [congruence|reflexivity|reflexivity]).
-    destruct (pass st) as [[pend s]|] eqn:Epa; [|inv_pair Hs; apply PM_same; [congruence|reflexivity|reflexivity]].
-    destruct (forallb _ pend); [|inv_pair Hs; apply PM_same; [congruence|reflexivity|reflexivity]].
-    destruct (Nat.leb _ _); [|inv_pair Hs; apply PM_same; [simpl; congruence|reflexivity|reflexivity]].
+    split_step Hs; inv_pair Hs; pm_same.
+  - split_step Hs; inv_pair Hs; pm_same.
+  - split_step Hs; inv_pair Hs; pm_same.
+  - split_step Hs; inv_pair Hs; pm_same.
+  - destruct (ph st) eqn:Ep; try (inv_pair Hs; pm_same).
+    destruct (pass st) as [[pend s]|] eqn:Epa; [|inv_pair Hs; pm_same].
+    destruct (forallb _ pend); [|inv_pair Hs; pm_same].
+    destruct (Nat.leb _ _); [|inv_pair Hs; pm_same].
     destruct (Nat.ltb _ _).
     { inv_pair Hs. apply PM_fail; auto. }
     destruct (expected c - 1)%nat; inv_pair Hs.
     + eapply PM_done1; simpl; eauto.
     + eapply PM_query; simpl; eauto.
-  - destruct (ph st) eqn:Ep; try (inv_pair Hs; apply PM_same; [congruence|reflexivity|reflexivity]).
-    destruct acks_left as [|k]; [inv_pair Hs; apply PM_same; [congruence|reflexivity|reflexivity]|].
-    destruct (chan st) as [|r rest]; [inv_pair Hs; apply PM_same; [congruence|reflexivity|reflexivity]|].
-    destruct (view_eqb r members); [|inv_pair Hs; apply PM_same; [simpl; congruence|reflexivity|reflexivity]].
+  - destruct (ph st) eqn:Ep; try (inv_pair Hs; pm_same).
+    destruct acks_left as [|k]; [inv_pair Hs; pm_same|].
+    destruct (chan st) as [|r rest]; [inv_pair Hs; pm_same|].
+    destruct (view_eqb r members); [|inv_pair Hs; pm_same].
     destruct k; inv_pair Hs.
     + eapply PM_done; simpl; eauto.
     + eapply PM_ack; simpl; eauto.
-  - destruct (ph st) eqn:Ep; inv_pair Hs; try (apply PM_same; [congruence|reflexivity|reflexivity]).
+  - destruct (ph st) eqn:Ep; inv_pair Hs; try (pm_same).
     + apply PM_fail; auto.
     + apply PM_fail; eauto.
 Qed.
